@@ -97,21 +97,27 @@ func (c *Collection) StartDCPFeed(
 	}
 	feed.events.init()
 
-	if args.Backfill != sgbucket.FeedNoBackfill {
-		startCas := args.Backfill
-		if args.Backfill == sgbucket.FeedResume {
-			if args.CheckpointPrefix == "" {
-				return fmt.Errorf("feed's Backfill is FeedResume but no CheckpointPrefix given")
-			}
-			if err := feed.readCheckpoint(); err != nil {
-				return fmt.Errorf("couldn't read DCP feed checkpoint: %w", err)
-			}
-			startCas = feed.lastCas + 1
+	startCas := args.Backfill
+	if args.Backfill == sgbucket.FeedResume {
+		if args.CheckpointPrefix == "" {
+			return fmt.Errorf("feed's Backfill is FeedResume but no CheckpointPrefix given")
 		}
+		if err := feed.readCheckpoint(); err != nil {
+			return fmt.Errorf("couldn't read DCP feed checkpoint: %w", err)
+		}
+		startCas = feed.lastCas + 1
+	}
 
+	// The backfill query and the registration for live events happen under the bucket mutex, so
+	// that no mutation can commit (and be posted) between the two and be missed by both.
+	verifLock(c.bucket.mutex, "feed.register")
+	c.bucket.mutex.Lock()
+	defer c.bucket.mutex.Unlock()
+
+	if args.Backfill != sgbucket.FeedNoBackfill {
 		debug("%s starting backfill from CAS 0x%x", feed, startCas)
 		feed.events.push(&sgbucket.FeedEvent{Opcode: sgbucket.FeedOpBeginBackfill})
-		err := c.enqueueBackfillEvents(startCas, args.KeysOnly, &feed.events)
+		err := c.enqueueBackfillEvents(c.bucket._db(), startCas, args.KeysOnly, &feed.events)
 		if err != nil {
 			return err
 		}
@@ -123,22 +129,19 @@ func (c *Collection) StartDCPFeed(
 		feed.events.push(nil) // push an eof
 	} else {
 		// Register the feed with the collection for future notifications:
-		verifLock(c.bucket.mutex, "feed.register")
-		c.bucket.mutex.Lock()
 		c.bucket.collectionFeeds[c.DataStoreNameImpl] = append(c.bucket.collectionFeeds[c.DataStoreNameImpl], feed)
-		c.bucket.mutex.Unlock()
 	}
 	go feed.run()
 	return nil
 }
 
-func (c *Collection) enqueueBackfillEvents(startCas uint64, keysOnly bool, q *eventQueue) error {
+func (c *Collection) enqueueBackfillEvents(db queryable, startCas uint64, keysOnly bool, q *eventQueue) error {
 	sql := fmt.Sprintf(`SELECT key, %s, %s, isJSON, cas, exp, tombstone, revSeqNo FROM documents
 						WHERE collection=?1 AND cas >= ?2 
 						ORDER BY cas`,
 		ifelse(keysOnly, `null`, `value`),
 		ifelse(keysOnly, `null`, `xattrs`))
-	rows, err := c.db().Query(sql, c.id, startCas)
+	rows, err := db.Query(sql, c.id, startCas)
 	if err != nil {
 		return err
 	}
